@@ -22,7 +22,7 @@ PROP = 'C10'
 SENTINELS = False      # installed by run() itself, after the two exhaustive sweeps (see run)
 SHARDS = {'quick': 4, 'thorough': 16}
 RULE = ("int cases: every integer of [-4096,4096] (quick) / [-65536,65536] (thorough) x 4 codes, plus power-of-two "
-        "neighbours and random integers out to 2**200, each through every creation route (keyword on the 4 classes, "
+        "neighbours and random integers out to 2**200, each through every creation route (keyword with the class rotating on v, all 4 classes for |v|<=32, "
         "property assignment on BitArray/BitStream, token string, Dtype.build, pack positional/'=v'/keyword) and "
         "reading route (property, Dtype.parse, unpack, read, peek, readlist, peeklist), every proper prefix of the "
         "codeword (all cuts in the window, boundary+random cuts for huge values) and codeword+{0,1,10}; negative "
@@ -45,7 +45,7 @@ REQUIRED_OPS = ['create-keyword', 'create-property', 'create-token', 'create-bui
                 'read-extra', 'sweep-read', 'sweep-peek', 'sweep-readlist', 'sweep-property', 'sweep-parse',
                 'seq-read', 'seq-readlist', 'seq-peeklist', 'seq-unpack', 'seq-pack', 'seq-token', 'seq-cut-read',
                 'seq-cut-readlist', 'table-row']
-MIN_EVALS = {'quick': 600000, 'thorough': 8000000}
+MIN_EVALS = {'quick': 1000000, 'thorough': 15000000}
 ASSUMPTIONS = ['MSB0 mode only (the library documents and enforces that exp-Golomb codes are unusable in lsb0 mode)',
                'H.264 (03/2005) 9.1 / Table 9-2, 9.1.1 and Dirac spec read_uint/read_sint are the definitions; the '
                'reference implementation is cross-checked against literal table rows and an arithmetic reformulation',
@@ -363,7 +363,7 @@ def judge_dec(ctx, c):
                 ic = f'{code}:' + ('no-bits' if pos == L else 'truncated')
             else:
                 ic = f'{code}:' + ('complete-exact' if pos + ref[1] == L else 'complete-more')
-            key = ('dec', code, bits, pos)
+            key = ('dec', code, bits)
             nt = L > 0
             for cls, s in streams.items():
                 s.pos = pos
@@ -393,7 +393,7 @@ def judge_dec(ctx, c):
             ctx.state('dec', code, bits, pos)
         # whole-bitstring interpretations
         ref = ref_decode(code, bits, 0)
-        key = ('decw', code, bits)
+        key = ('dec', code, bits)
         if ref is not None and ref[1] == L:
             ic = f'{code}:exact-codeword'
             j.value('sweep-property', ic, key, call(lambda: getattr(whole, code)), ref[0])
